@@ -66,7 +66,7 @@ extern const char* const ref_unknown_name[REF_N_UNKNOWN];
 int ref_pq_write(ref_arena* a, const ref_write_req* rq, ref_buf* out, ref_pageinfo* pages, int maxpages, int* npages);
 
 /* schema helpers */
-typedef struct { int nleaves; int leaf_schema_idx[512]; int max_def[512]; int max_rep[512]; } ref_leaves;
+typedef struct { int nleaves; int leaf_schema_idx[4096]; int max_def[4096]; int max_rep[4096]; } ref_leaves;
 int ref_schema_leaves(const ref_schema_elem* schema, int nschema, ref_leaves* out);   /* 0 ok, <0 malformed tree */
 
 typedef struct {
